@@ -17,6 +17,7 @@ func checkC11(c *Ctx) {
 	r.Rule("R11.2", "getters: JSONMode returns the receiver's useJSON and ColorMode the receiver's useColor")
 	r.Rule("R11.3", "bytes follow the state: setentry derives the encoder's mode bits as jsonMode = useJSON and noColor = !(useColor && !useJSON) from the emitting logger, on every path; these two encoder fields are stored nowhere else; the encoder's top-level format branch tests exactly these fields")
 	r.Rule("R11.4", "options and With-forms: WithJSONMode/WithColorMode (methods and Opt constructors) call the namesake Set with their own arguments (methods: shared with R10.2)")
+	r.Rule("R11.6", "the shape of a record comes from this record's state only: in each of the three modes no field of the pooled encoder can be read before the current record wrote it (engine E10, shared with R09.1), so material formatted for a previous record in another format cannot surface")
 	r.Rule("R11.5", "isolation: no store to useJSON/useColor of another logger (shared with R10.1)")
 	for _, tags := range c.Configs([]string{""}, []string{"", "verbose", "hint"}) {
 		p := c.Prog(tags)
@@ -30,6 +31,8 @@ func checkC11(c *Ctx) {
 		}
 		c11Transitions(c, p, m)
 		c11Encoder(c, p, m)
+		// the record's shape must come from this record's mode only: no pooled encoder field is read stale in any mode
+		c09Pooled(c, p, m, "R11.6", feasibleModes)
 	}
 	c.Floor["R11.1"] = 4
 	c.Floor["R11.3"] = 5
